@@ -18,7 +18,8 @@ type SMT struct {
 	// struct sorts in progress (cycle detection)
 	inProg map[string]bool
 	// ground-axiom instantiation cache
-	inst map[string]bool
+	inst  map[string]bool
+	inst2 map[string]string
 	// concrete type tags
 	tags map[string]int
 	// used sentinel errors
@@ -43,7 +44,7 @@ type fieldInfo struct {
 }
 
 func NewSMT(w *World) *SMT {
-	b := &SMT{declared: map[string]bool{}, w: w, inProg: map[string]bool{}, inst: map[string]bool{}, tags: map[string]int{}, sentinels: map[string]bool{}, Notes: map[string]bool{}, structs: map[string]*structInfo{}}
+	b := &SMT{declared: map[string]bool{}, w: w, inProg: map[string]bool{}, inst: map[string]bool{}, inst2: map[string]string{}, tags: map[string]int{}, sentinels: map[string]bool{}, Notes: map[string]bool{}, structs: map[string]*structInfo{}}
 	b.lines = append(b.lines, preludeSMT)
 	return b
 }
